@@ -14,6 +14,8 @@ import QV.Driver.Cli
 import QV.Driver.Ir
 import QV.Driver.Passes
 import QV.Driver.C03
+import QV.Driver.Sem
+import QV.Driver.Typing
 import QV.Driver.Observe
 import QV.Driver.CxxEmit
 
@@ -63,6 +65,15 @@ def dispatch (req : Sexp) : Sexp :=
   | .list (.atom "spec-cxxlit" :: args) => Driver.CxxEmit.handleSpecCxxLit args
   | .list (.atom "coveredcheck" :: args) => Driver.Observe.handleCoveredCheck args
   | .list (.atom "c02-history" :: args) => Driver.Observe.handleHistory args
+  | .list (.atom "spec-c01" :: args) => Driver.Sem.handleSpecC01 args
+  | .list (.atom "c01-ir" :: args) => Driver.Sem.handleIr args
+  | .list (.atom "c01-body" :: args) => Driver.Sem.handleBody args
+  | .list (.atom "spec-c13" :: args) => Driver.Sem.handleSpecC13 args
+  | .list (.atom "c13-body" :: args) => Driver.Sem.handleBody13 args
+  | .list (.atom "c05-accept" :: args) => Driver.Typing.handleAccept args
+  | .list (.atom "c05-reject" :: args) => Driver.Typing.handleReject args
+  | .list (.atom "c05-ir" :: args) => Driver.Typing.handleIr args
+  | .list (.atom "c05-verdict" :: args) => Driver.Typing.handleVerdict args
   | .list (.atom "literal" :: args) => Driver.C03.handleLiteral args
   | .list (.atom "spec-mv" :: args) => Driver.C03.handleSpecMv args
   | .list (.atom "c03-judge" :: args) => Driver.C03.handleJudge args
